@@ -381,7 +381,11 @@ func (c *Client) SendIQ(ctx context.Context, iq *stanza.IQ) (chan stanza.IQ, err
 		return nil, ErrCanOnlySendGetOrSetIq
 	}
 	// Register before sending: the response may arrive before Send returns.
-	result := c.router.NewIQResultRoute(ctx, iq.Attrs.Id)
+	// Nothing is sent under an id that is still awaiting its response.
+	result, err := c.router.newIQResultRoute(ctx, iq.Attrs.Id)
+	if err != nil {
+		return nil, err
+	}
 	if err := c.Send(iq); err != nil {
 		c.router.removeIQResultRoute(iq.Attrs.Id, result)
 		return nil, err
